@@ -38,6 +38,22 @@ def main():
     for name, prop, status, extra in res:
         print(f"{name:12s} {prop} {status:14s} {extra}")
     print(f"{sum(1 for r in res if r[2] == 'DETECTED')}/{len(res)} detected")
+    if not pref:
+        import re
+        st_path = VERIF / "seeded" / "STATUS.json"
+        st = json.loads(st_path.read_text()) if st_path.exists() else {}
+        st["now"] = {}
+        rows = ["| mutation | what it changes (needs) | first run | now (reporting rule) |", "|---|---|---|---|"]
+        for name, prop, status, extra in res:
+            m = re.search(r"\[(K[0-9]+\.[^\]]+)\]", extra)
+            rule = m.group(1) if m else ""
+            st["now"][name] = f"{status} {rule}".strip()
+            meta = json.loads((VERIF / "seeded" / name / "meta.json").read_text())
+            files = sorted({l[6:].strip() for l in (VERIF / "seeded" / name / "patch.diff").read_text().splitlines() if l.startswith("+++ b/")})
+            what = ", ".join(f.split("/")[-1] for f in files) + ": " + meta.get("needs_to_manifest", "")
+            rows.append(f"| {name} | {what} | {st.get('first_run', {}).get(name, '-')} | {status} {rule} |")
+        st_path.write_text(json.dumps(st, indent=1))
+        (VERIF / "seeded" / "TABLE.md").write_text("\n".join(rows) + "\n")
 
 
 if __name__ == "__main__":
